@@ -59,6 +59,16 @@ def run(ctx):
     ctx.samples = [{"fam": "pkglen", "ns": ns[60:70], "incl": True}, sites[0], fields[0]]
     ctx.n = 2 * len(ns) + len(sites) + len(fields)
     ctx.distinct = set(ns) | {p.get("tag", "") for p in sites}
+    if th:
+        # the whole inclusive domain on the crate too: digest tabulation, 4096 chunks of 65536 lengths (Digest.tla)
+        top = (1 << 28) - 4                       # largest content size that still fits with its own 4 bytes
+        sw = ac.sweep_programs("pkglen_incl", [i * 65536 for i in range(4095)], 65536)
+        sw += ac.sweep_programs("pkglen_incl", [4095 * 65536], top - 4095 * 65536)
+        before = len(ctx.fails)
+        ac.judge(ctx, sw, "c07sweep", timeout=7200)
+        ac.refine_sweep_failures(ctx, ctx.fails[before:], "c07sweep")
+        ctx.extra["impl_domain"] = "all 0 <= n <= 2^28-5 in the self-inclusive form, exhaustively on the crate (digest tabulation)"
+        ctx.n += top
     ac.judge(ctx, progs, "c07")
     return vlib.finish(ctx, rule="lengths: all n < 70 000 (thorough 300 000), +-64 around 63/4095/2^20/2^28, all one- and two-bit "
                        "patterns, seeded random values, both forms, through the cfg pass-through to the crate's private encoder; "
